@@ -448,6 +448,8 @@ class MProcess(QOperation):
         hss = convert_var_to_hss(
             c_sys, var, on_para_eq_constraint=on_para_eq_constraint
         )
+        # the HS matrices may be views of ``var``; work on copies so that the argument is not modified
+        hss = copy.deepcopy(hss)
 
         # calc new var
         vec = np.zeros((dim ** 2))
